@@ -41,6 +41,7 @@ type M struct {
 	// mode: a call decides liveness with its first clock read and stamps with its last).
 	StampNow int64
 	CBFlip   bool   // checker-internal: CB is temporarily inverted for one call
+	PinNow, PinStamp int64 // checker-internal: the clock reads chosen for one call
 	DOvr     *int64 // default expiration this one call may have read (a default set concurrently with the call)
 	Tick     bool // ticking-clock mode
 	NoClock  bool // the call being checked read no clock: it cannot have seen a possibly-cleaned entry as live
